@@ -1043,7 +1043,10 @@ fn families(ctx: &Ctx, sink: Sink) {
                 ..Opts::default()
             };
             family_singles(4, true, true, thorough, &o, sink);
-            family_pairs(if thorough { 4 } else { 3 }, thorough, &o, sink);
+            // the large pairs family is executed once per run (its states are still re-reached over different paths,
+            // which must reproduce the traces); every run of the other families is executed twice in the thorough tier
+            let o_pairs = Opts { twice: false, ..o.clone() };
+            family_pairs(if thorough { 4 } else { 3 }, thorough, &o_pairs, sink);
             family_hist_inside(3, &o, sink);
             family_corpus(thorough, 0, &o, sink);
         }
